@@ -62,6 +62,11 @@ claim('C02', 'enumeration of the finite configuration lattice x generated generi
       'is compared with the manifold dimension; one full-rank point decides the configuration.',
       'trusted: torch autograd of the float64 maps, numpy SVD, relative gap criterion 1e-9 with gap>=1e5')
 
+claim('C10', 'Hypothesis over an argument table of every public numqi.random function (coverage guard via dir()) x integer seed x generated histories of interleaved global-RNG operations; oracle: validity predicate per generator, bit-identity of two seeded calls',
+      'Every generator is called with every optional branch, validated against the set it advertises, and called twice with the same seed around a generated sequence of numpy/python/torch/global and '
+      'numqi.random noise operations; the other seed-taking APIs (measure, Circuit.measure, CliffordCircuit, minimize, minimize_adam, get_purification, CHA solver) are treated the same way.',
+      'trusted: numpy linear algebra in the predicates; distribution quality not claimed; CHA SolverError counted inconclusive')
+
 NOT_YET = 'check not built yet in this session (work in progress; see DESIGN.md section 4 for the planned generator and oracle)'
 
 ALL = [f'C{i:02d}' for i in range(1, 21)]
